@@ -119,4 +119,150 @@ theorem build_sorted (b : Builder) : b.build.Pairwise (fun a b => a.date ≤ b.d
     simp only [Builder.build, List.foldr_cons]
     exact insertDay_sorted d _ ih
 
+/-! ### the census predicate holds for the model's journal, whatever the arrival order -/
+
+theorem sameDirs_iff_perm (e o : List Dir) : sameDirs e o = true ↔ e.Perm o := by
+  rw [List.perm_iff_count]
+  simp only [sameDirs, List.all_eq_true, List.mem_append, beq_iff_eq]
+  constructor
+  · intro h a
+    by_cases ha : a ∈ e ∨ a ∈ o
+    · exact h a ha
+    · have h1 : a ∉ e := fun x => ha (Or.inl x)
+      have h2 : a ∉ o := fun x => ha (Or.inr x)
+      rw [List.count_eq_zero_of_not_mem h1, List.count_eq_zero_of_not_mem h2]
+  · intro h a _; exact h a
+
+theorem Day.all_add (d : Day) (x : Dir) : (d.add x).all.Perm (x :: d.all) := by
+  rw [List.perm_iff_count]
+  intro a
+  cases hk : x.kind <;> simp [Day.all, Day.add, hk, List.count_append, List.count_cons] <;> omega
+
+theorem printed_add (b : Builder) (x : Dir) : (printed (Builder.add b x)).Perm (x :: printed b) := by
+  induction b with
+  | nil =>
+    have := Day.all_add { date := x.date } x
+    simpa [printed, Builder.add, Day.all] using this
+  | cons d ds ih =>
+    simp only [Builder.add]
+    split
+    · simp only [printed, List.flatMap_cons]
+      exact (List.Perm.append_right _ (Day.all_add d x)).trans (by simp)
+    · simp only [printed, List.flatMap_cons] at ih ⊢
+      exact (List.Perm.append_left _ ih).trans (by
+        rw [List.perm_iff_count]; intro a; simp [List.count_append, List.count_cons]; omega)
+
+theorem printed_foldl_add (ds : List Dir) (b : Builder) : (printed (ds.foldl Builder.add b)).Perm (printed b ++ ds) := by
+  induction ds generalizing b with
+  | nil => simp
+  | cons x xs ih =>
+    simp only [List.foldl_cons]
+    refine (ih _).trans ?_
+    refine (List.Perm.append_right _ (printed_add b x)).trans ?_
+    rw [List.perm_iff_count]; intro a; simp [List.count_append, List.count_cons]; omega
+
+theorem printed_stream_aux (arrival : List (List Dir)) (b : Builder) :
+    (printed (arrival.foldl (fun b ds => ds.foldl Builder.add b) b)).Perm (printed b ++ arrival.flatten) := by
+  induction arrival generalizing b with
+  | nil => simp
+  | cons ds rest ih =>
+    simp only [List.foldl_cons, List.flatten_cons]
+    refine (ih _).trans ?_
+    rw [← List.append_assoc]
+    exact List.Perm.append_right _ (printed_foldl_add ds b)
+
+theorem printed_stream (arrival : List (List Dir)) : (printed (fromModelStream arrival)).Perm arrival.flatten := by
+  simpa [fromModelStream, printed] using printed_stream_aux arrival []
+
+theorem printed_perm {a b : List Day} (h : a.Perm b) : (printed a).Perm (printed b) := by
+  induction h with
+  | nil => exact List.Perm.refl _
+  | cons x _ ih => simp only [printed, List.flatMap_cons] at ih ⊢; exact List.Perm.append_left _ ih
+  | swap x y l =>
+    simp only [printed, List.flatMap_cons]
+    rw [List.perm_iff_count]; intro a; simp [List.count_append]; omega
+  | trans _ _ ih1 ih2 => exact ih1.trans ih2
+
+/-- every directive sits in the day of its date -/
+def DayWF (b : List Day) : Prop := ∀ d ∈ b, ∀ x ∈ d.all, x.date = d.date
+
+theorem mem_all_add {d : Day} {x y : Dir} (h : y ∈ (d.add x).all) : y = x ∨ y ∈ d.all := by
+  have := (Day.all_add d x).mem_iff.mp h
+  simpa using this
+
+theorem dayWF_add {b : Builder} (h : DayWF b) (x : Dir) : DayWF (Builder.add b x) := by
+  induction b with
+  | nil =>
+    intro d hd y hy
+    simp only [Builder.add, List.mem_singleton] at hd
+    subst hd
+    rcases mem_all_add hy with rfl | hy
+    · simp
+    · simp [Day.all] at hy
+  | cons e es ih =>
+    simp only [Builder.add]
+    split
+    · rename_i heq
+      intro d hd y hy
+      rcases List.mem_cons.mp hd with rfl | hd
+      · rcases mem_all_add hy with rfl | hy
+        · simp [heq]
+        · simpa using h e List.mem_cons_self y hy
+      · exact h d (List.mem_cons_of_mem _ hd) y hy
+    · intro d hd y hy
+      rcases List.mem_cons.mp hd with rfl | hd
+      · exact h d List.mem_cons_self y hy
+      · exact ih (fun d hd => h d (List.mem_cons_of_mem _ hd)) d hd y hy
+
+theorem dayWF_stream (arrival : List (List Dir)) : DayWF (fromModelStream arrival) := by
+  have key : ∀ (ds : List Dir) (b : Builder), DayWF b → DayWF (ds.foldl Builder.add b) := by
+    intro ds
+    induction ds with
+    | nil => intro b h; exact h
+    | cons x xs ih => intro b h; exact ih _ (dayWF_add h x)
+  have key2 : ∀ (arr : List (List Dir)) (b : Builder), DayWF b → DayWF (arr.foldl (fun b ds => ds.foldl Builder.add b) b) := by
+    intro arr
+    induction arr with
+    | nil => intro b h; exact h
+    | cons ds rest ih => intro b h; exact ih _ (key ds b h)
+  exact key2 arrival [] (by intro d hd; cases hd)
+
+theorem printed_sorted {days : List Day} (hwf : DayWF days) (hs : days.Pairwise (fun a b => a.date ≤ b.date)) :
+    (printed days).Pairwise (fun a b => a.date ≤ b.date) := by
+  induction days with
+  | nil => simp [printed]
+  | cons d ds ih =>
+    have ⟨h1, h2⟩ := List.pairwise_cons.mp hs
+    simp only [printed, List.flatMap_cons]
+    rw [List.pairwise_append]
+    refine ⟨?_, ih (fun e he => hwf e (List.mem_cons_of_mem _ he)) h2, ?_⟩
+    · -- within a day all dates are equal
+      have hd := hwf d List.mem_cons_self
+      generalize d.all = l at hd
+      induction l with
+      | nil => simp
+      | cons a as iha =>
+        refine List.pairwise_cons.mpr ⟨?_, iha (fun x hx => hd x (List.mem_cons_of_mem _ hx))⟩
+        intro b hb
+        rw [hd a List.mem_cons_self, hd b (List.mem_cons_of_mem _ hb)]
+        exact Int.le_refl _
+    · intro a ha b hb
+      obtain ⟨e, he, hbe⟩ := List.mem_flatMap.mp hb
+      rw [hwf d List.mem_cons_self a ha, hwf e (List.mem_cons_of_mem _ he) b hbe]
+      exact h1 e he
+
+/-- **the census predicate holds on the model**: what the built journal prints is, for every arrival
+order, exactly the arriving directives, in date order -/
+theorem census_model (arrival : List (List Dir)) :
+    censusOK arrival.flatten (printed (fromModelStream arrival).build) = true := by
+  simp only [censusOK, Bool.and_eq_true]
+  constructor
+  · rw [sameDirs_iff_perm]
+    exact ((printed_perm (build_perm _)).trans (printed_stream arrival)).symm
+  · simp only [datesSorted, decide_eq_true_eq]
+    apply printed_sorted
+    · intro d hd
+      exact dayWF_stream arrival d ((build_perm _).mem_iff.mp hd)
+    · exact build_sorted _
+
 end Knut.Pipeline
